@@ -347,7 +347,7 @@ func (g *exprGen) leaf(k model.Kind) model.Expr {
 		case 1:
 			return model.Index{X: model.Var{Name: "ob"}, I: model.Lit{V: model.Str("s")}}
 		}
-		return model.StrLit{S: []string{"a", "b c", "", "q"}[r.Intn(4)], Quote: "\"'"[r.Intn(2)]}
+		return model.StrLit{S: []string{"a", "b c", "", "q", "a&b", "<i>", "x > y"}[r.Intn(7)], Quote: "\"'"[r.Intn(2)]}
 	case model.KBool:
 		switch r.Intn(3) {
 		case 0:
@@ -510,6 +510,64 @@ func init() {
 			bounds := boundaryCases()
 			secs = append(secs, core.Section{Name: "boundaries", Exhaustive: true, N: len(bounds),
 				Run: func(c *core.Ctx, i int) { bounds[i](c) }})
+			// a failing sub-expression fails the render wherever it stands: later elements of arrays,
+			// later call arguments, object literal values, index expressions, ternary parts
+			failing := []model.Expr{
+				model.Var{Name: "nope"},
+				model.Binary{Op: "/", L: model.Lit{V: model.Int(1)}, R: model.Lit{V: model.Int(0)}},
+				model.Binary{Op: "+", L: model.Lit{V: model.Int(1)}, R: model.Lit{V: model.Str("s")}},
+				model.Dot{X: model.Lit{V: model.Int(3)}, Name: "k"},
+			}
+			one, two, sx := model.Lit{V: model.Int(1)}, model.Lit{V: model.Int(2)}, model.Lit{V: model.Str("abc")}
+			holes := []func(h model.Expr) model.Expr{
+				func(h model.Expr) model.Expr { return model.ArrLit{Elems: []model.Expr{one, h}} },
+				func(h model.Expr) model.Expr { return model.ArrLit{Elems: []model.Expr{h, one}} },
+				func(h model.Expr) model.Expr { return model.ArrLit{Elems: []model.Expr{one, two, h}} },
+				func(h model.Expr) model.Expr {
+					return model.Call{X: model.ArrLit{Elems: []model.Expr{one, h}}, Name: "len"}
+				},
+				func(h model.Expr) model.Expr {
+					return model.Index{X: model.ArrLit{Elems: []model.Expr{one, h}}, I: model.Lit{V: model.Int(0)}}
+				},
+				func(h model.Expr) model.Expr { return model.ArrLit{Elems: []model.Expr{model.ArrLit{Elems: []model.Expr{one, h}}}} },
+				func(h model.Expr) model.Expr { return model.Call{X: sx, Name: "truncate", Args: []model.Expr{two, h}} },
+				func(h model.Expr) model.Expr { return model.Call{X: sx, Name: "truncate", Args: []model.Expr{model.Lit{V: model.Int(50)}, h}} },
+				func(h model.Expr) model.Expr { return model.Call{X: sx, Name: "contains", Args: []model.Expr{h}} },
+				func(h model.Expr) model.Expr { return model.Call{X: model.Lit{V: model.Bool(true)}, Name: "then", Args: []model.Expr{sx, h}} },
+				func(h model.Expr) model.Expr { return model.Call{X: model.Lit{V: model.Bool(false)}, Name: "then", Args: []model.Expr{h, sx}} },
+				func(h model.Expr) model.Expr { return model.Call{X: one, Name: "tr", Args: []model.Expr{two, h}} },
+				func(h model.Expr) model.Expr { return model.Call{X: model.ArrLit{Elems: []model.Expr{one}}, Name: "append", Args: []model.Expr{two, h}} },
+				func(h model.Expr) model.Expr { return model.Call{X: model.ArrLit{Elems: []model.Expr{one}}, Name: "slice", Args: []model.Expr{model.Lit{V: model.Int(0)}, h}} },
+				func(h model.Expr) model.Expr {
+					return model.Dot{X: model.ObjLit{Keys: []string{"a", "b"}, Vals: []model.Expr{one, h}}, Name: "a"}
+				},
+				func(h model.Expr) model.Expr { return model.Index{X: model.ArrLit{Elems: []model.Expr{one, two}}, I: h} },
+				func(h model.Expr) model.Expr { return model.Ternary{C: h, A: one, B: two} },
+				func(h model.Expr) model.Expr { return model.Ternary{C: one, A: h, B: two} },
+				func(h model.Expr) model.Expr { return model.Ternary{C: model.Lit{V: model.Int(0)}, A: one, B: h} },
+				func(h model.Expr) model.Expr { return model.Binary{Op: "+", L: one, R: h} },
+				func(h model.Expr) model.Expr { return model.Unary{Op: "-", X: h} },
+				func(h model.Expr) model.Expr { return model.Postfix{Op: "++", X: h} },
+				func(h model.Expr) model.Expr { return model.Call{X: h, Name: "len"} },
+				func(h model.Expr) model.Expr { return model.Paren{X: h} },
+			}
+			secs = append(secs, core.Section{Name: "failing-subexpressions", Exhaustive: true, N: len(holes) * len(failing),
+				Run: func(c *core.Ctx, i int) {
+					judgeExpr(c, holes[i/len(failing)](failing[i%len(failing)]), nil, "failing-subexpression")
+				}})
+			// the same expression evaluated in several passes of a loop gives the same value every time
+			secs = append(secs, core.Section{Name: "random-trees-in-loops", N: nRandom / 6,
+				Run: func(c *core.Ctx, i int) {
+					g := newExprGen(c.Rng)
+					g.data["s1"], g.data["s2"] = model.Str("a&b"), model.Str("<i>")
+					k := []model.Kind{model.KInt, model.KFloat, model.KStr, model.KBool}[c.Rng.Intn(4)]
+					e := g.gen(k, 1+c.Rng.Intn(depth))
+					var loop model.Stmt = model.Each{Var: "pass", Arr: intArr(1, 2, 3), Body: []model.Stmt{model.Print{E: e}, model.Text{S: ","}}}
+					if i%2 == 1 {
+						loop = upFor("pass", 1, 3, []model.Stmt{model.Print{E: e}, model.Text{S: ","}}, nil)
+					}
+					judgeProgram(c, []model.Stmt{model.Text{S: "<"}, loop, model.Text{S: ">"}}, g.data, "random-in-loop", false)
+				}})
 			// (d) random typed trees
 			secs = append(secs, core.Section{Name: "random-trees", N: nRandom,
 				Run: func(c *core.Ctx, i int) {
